@@ -124,6 +124,8 @@ def run_session(rnd, w, dumps, kinds, gen_cfg, nacts=14, max_gens=4):
             a['found'] = False
             a['item'] = {}
             a['err'] = type(ex).__name__ + ':' + str(ex)[:80]
+            if dumps[d].cut_mid:
+                a['cutend'] = True        # the file is cut inside a record: reading may end with an error (where, is validated)
             gens[gi][3] = False
         acts.append(a)
         script.append('next #%d -> %s' % (gi + 1, a.get('err') or (a['item'] if a['found'] else 'end')))
@@ -138,7 +140,7 @@ def run_session(rnd, w, dumps, kinds, gen_cfg, nacts=14, max_gens=4):
     acts.append({'op': 'cfg', 'cfg': cfg_of(w, p), 'inplace': False})
 
     def failed():
-        return bool(acts) and 'err' in acts[-1]
+        return bool(acts) and 'err' in acts[-1] and 'cutend' not in acts[-1]
 
     def some(gi, lo, hi):
         for _ in range(rnd.randrange(lo, hi + 1)):
@@ -216,6 +218,12 @@ def run_sessions(ctx, rnd, n, kinds, gen_dump, gen_cfg, tag, nacts=14):
         if rnd.random() < 0.6:
             _, d2 = gen_dump(rnd, world=w)
             dumps.append(d2)
+        if rnd.random() < 0.35:
+            # a cut copy of one of the dumps: requests on it end early (with an error if the cut is inside a record) and the
+            # object must serve the next request as if nothing had happened
+            c = rnd.choice(dumps).cut_copy(rnd)
+            if c is not None:
+                dumps.append(c)
         o, script, gens = run_session(rnd, w, dumps, kinds, gen_cfg, nacts=nacts)
         keep.append(gens)         # abandoned listings stay referenced until the end of the run
         if len(keep) > 50:
